@@ -5,6 +5,7 @@ import (
 
 	"verif/core"
 	"verif/drive"
+	"verif/synth"
 )
 
 func init() {
@@ -28,6 +29,18 @@ func init() {
 func analysisCheck(cfg *core.Config, oracle, evalCounter, rule string, assumptions []string) int {
 	rep := core.NewReport(cfg)
 	progs := typeProgs(cfg.Seed, cfg.Pick(32, 400))
+	if oracle == "c12" {
+		// deeper nesting and more recursion for the type graph property
+		n := cfg.Pick(12, 150)
+		for i := 0; i < n; i++ {
+			r := core.Rand(cfg.Seed, "typeprog-c12-deep", i)
+			opts := synth.RandomTypeOpts(r)
+			opts.Recursive = true
+			opts.Depth = 3 + i%3
+			p := synth.NewTypeProg(cfg.Seed, 5000+i, r, opts)
+			progs = append(progs, p)
+		}
+	}
 	progs = append(progs, pinnedPrograms(cfg.Prop)...)
 	pl := NewPipeline(cfg, rep, progs, true)
 	defer pl.Close()
